@@ -1,0 +1,24 @@
+// Copyright (c) 2025, Peter Ohler, All rights reserved.
+
+package bag
+
+import (
+	"io"
+
+	"github.com/ohler55/ojg/sen"
+)
+
+// senParse parses JSON or SEN with a parser of its own. The package level
+// functions of the sen package share a pool of parsers and a parser that
+// stopped at an error (after a '+' for example) goes back to the pool with
+// state left over that makes later, unrelated parses fail.
+func senParse(buf []byte, args ...any) any {
+	p := sen.Parser{}
+	return p.MustParse(buf, args...)
+}
+
+// senParseReader is senParse for a reader.
+func senParseReader(r io.Reader, args ...any) any {
+	p := sen.Parser{}
+	return p.MustParseReader(r, args...)
+}
